@@ -64,6 +64,8 @@ def inner_frame(exc, package='TexSoup'):
     """Innermost traceback frame inside the package: 'file:function'."""
     site = None
     e = exc
+    if isinstance(exc, RuntimeError) and isinstance(exc.__cause__, StopIteration):
+        e = exc.__cause__          # "generator raised StopIteration": blame where it was raised
     seen = 0
     while e is not None and seen < 5:
         tb = e.__traceback__
